@@ -84,30 +84,49 @@ def job_process_logic(seed):
             P.start()
             rvc.CTX.base = [z3.Real('step') > 0, zn >= 1, zn < BIG]     # a histogram cannot have 9e18 bins in memory
             writes = []
+            kt = sp.Symbol('ktrunc', integer=True)
+            ks = sp.Symbol('kspec', integer=True)
+            zt, zs = z3.Int('ktrunc'), z3.Int('kspec')
+            xs = rvc.to_z3((v - mn) / st + sp.Rational(1, 2))
+            # specification integer: the bin position nearest to v, k* = floor((v - min)/step + 1/2)  (independent of the code)
+            rvc.CTX.base += [z3.ToReal(zs) <= xs, xs < z3.ToReal(zs) + 1]
+            code_ints = []
             def floor_c(x):
                 x = D.lift(x)
                 zx = rvc.to_z3(sp.together(x.v))
                 rvc.CTX.base += [z3.ToReal(zk) <= zx, zx < z3.ToReal(zk) + 1]      # contract of floor
                 return D(kf)
+            def to_int(x):
+                # contract of a double -> Index conversion: truncation toward zero
+                zx = rvc.to_z3(sp.together(D.lift(x).v))
+                rvc.CTX.base += [z3.Or(z3.And(zx >= 0, z3.ToReal(zt) <= zx, zx < z3.ToReal(zt) + 1), z3.And(zx < 0, z3.ToReal(zt) - 1 < zx, zx <= z3.ToReal(zt)))]
+                return SInt(kt)
             def y_ref(tbl, i):
                 return rvc.Ref(lambda: D(sp.Function('y')(SInt.ex(i))), lambda val, i=i: writes.append((i, val)))
             this = {'min_': D(mn), 'step_': D(st), 'nbins_': SInt(nb), 'periodic_': periodic, 'data_': 'TABLE'}
-            ex = Exec({'v': D(v), 'scale': D(sc)}, {'decide': P.decide, 'floor': floor_c, 'y': y_ref}, {}, this)
+            ex = Exec({'v': D(v), 'scale': D(sc)}, {'decide': P.decide, 'floor': floor_c, 'to_int': to_int, 'y': y_ref}, {}, this)
             try:
                 ex.stmt(rvc.body_of(fn))
             except Ret:
                 pass
             tag = '%s.p%d' % ('periodic' if periodic else 'plain', P.count)
             x = (v - mn) / st
-            near = z3.And(rvc.to_z3(v - (mn + kf * st)) <= rvc.to_z3(st / 2), rvc.to_z3(v - (mn + kf * st)) >= -rvc.to_z3(st / 2))
-            repres = z3.And(zk > -BIG, zk < BIG)       # bin position representable as an index (the code drops anything beyond +-9e18 bins)
+            repres = z3.And(zs > -BIG, zs < BIG)       # bin position representable as an index (the code drops anything beyond +-9e18 bins)
             if writes:
                 if len(writes) != 1:
                     obs.append(Ob('C13.process.logic/%s/one-write' % tag, F, 'exactly one bin is written', 'RVC', 'symbolic execution', core.REFUTED, 0, str(len(writes)), witness={'writes': len(writes)}))
                 idx, val = writes[0]
                 zi = rvc.to_z3(SInt.ex(idx))
-                obs.append(rvc.logic('C13.process.logic/%s/in-range' % tag, F, 'written index lies in [0, nbins)', z3.And(zi >= 0, zi < zn), pc=P.pc))
-                obs.append(rvc.logic('C13.process.logic/%s/nearest' % tag, F, 'the value lies within half a step of the centre min + k*step of its bin position k (nearest centre)', near, pc=P.pc))
+                obs.append(rvc.logic('C13.process.logic/%s/in-range' % tag, F, 'written index lies in [0, nbins)', z3.And(zi >= 0, zi < zn), pc=P.pc, small=[zn <= 16]))
+                # which integer does the written index derive from? (the floor result, or the truncated cast)
+                isyms = [x for x in SInt.ex(idx).free_symbols if x in (kf, kt)]
+                if len(isyms) != 1:
+                    obs.append(Ob('C13.process.logic/%s/position' % tag, F, 'the written index derives from one bin position computed from v', 'RVC', 'symbolic execution', core.REFUTED, 0, str(SInt.ex(idx)), witness={'index': str(SInt.ex(idx))}))
+                    if not P.next():
+                        break
+                    continue
+                kc, zc = isyms[0], (zk if isyms[0] == kf else zt)
+                obs.append(rvc.logic('C13.process.logic/%s/nearest' % tag, F, 'the bin position used by the code is k* = floor((v - min)/step + 1/2): the bin whose centre min + k* step is nearest to v', zc == zs, pc=P.pc, small=[zn <= 16]))
                 if periodic:
                     # congruence by exact division: every (a mod n) is a - n*q for an integer q, so index - k must be a polynomial multiple of nbins
                     qs = []
@@ -119,20 +138,44 @@ def job_process_logic(seed):
                         if e.args:
                             return e.func(*[demod(a) for a in e.args])
                         return e
-                    diff = sp.expand(demod(SInt.ex(idx)) - kf)
+                    diff = sp.expand(demod(SInt.ex(idx)) - kc)
                     ok = sp.rem(diff, nb, nb) == 0
                     obs.append(Ob('C13.process.logic/%s/wrap' % tag, F, 'periodic: written index is congruent to the bin position k modulo nbins (index - k is an exact multiple of nbins)', 'RVC',
                                   'polynomial division (sympy)', core.PROVED if ok else core.REFUTED, 0, 'index - k = %s' % diff, witness=None if ok else {'index_minus_k': str(diff)}))
                 else:
-                    obs.append(rvc.logic('C13.process.logic/%s/accept' % tag, F, 'non-periodic: written index IS the bin position k (so 0 <= k < nbins: within half a step of the range)', zi == zk, pc=P.pc))
+                    obs.append(rvc.logic('C13.process.logic/%s/accept' % tag, F, 'non-periodic: written index IS the bin position k* (so 0 <= k* < nbins: within half a step of the range)', zi == zs, pc=P.pc))
                 obs.append(rvc.identity('C13.process.logic/%s/weight' % tag, F, 'the bin is incremented by exactly the weight', val.v - sp.Function('y')(SInt.ex(idx)), sc, seed))
             else:
                 if periodic:
                     obs.append(rvc.logic('C13.process.logic/%s/discard' % tag, F, 'periodic: a value is dropped only if its bin position is not representable (|k| >= 9e18)', z3.Not(repres), pc=P.pc))
                 else:
-                    obs.append(rvc.logic('C13.process.logic/%s/discard' % tag, F, 'non-periodic: a value is dropped only if its bin position k is outside [0, nbins)', z3.Or(zk < 0, zk >= zn), pc=P.pc))
+                    obs.append(rvc.logic('C13.process.logic/%s/discard' % tag, F, 'non-periodic: a value is dropped only if its bin position k* is outside [0, nbins)', z3.Or(zs < 0, zs >= zn), pc=P.pc))
             if not P.next():
                 break
+    bad = [o for o in obs if o['status'] == core.REFUTED and isinstance(o.get('witness'), dict) and 'v' in o['witness']]
+    if bad:
+        import math
+        try:
+            exe = native.build('C13.process', open(os.path.join(CDIR, 'replay_process.cc')).read(),
+                               ['tools/src/libtools/histogramnew.cc', 'tools/src/libtools/table.cc', 'tools/src/libtools/tokenizer.cc'], ndebug=False)
+            for o in bad:
+                w = o['witness']
+                f = lambda k, d: float(sp.Rational(str(w[k]))) if k in w else d
+                vv, mnv, stv, nbv = f('v', 0.0), f('hmin', 0.0), f('step', 1.0), int(f('nbins', 4))
+                per = 'periodic' in o['id']
+                if nbv > 1000000:
+                    o['replay'] = {'reproduced': False, 'error': 'witness needs %d bins' % nbv}
+                    continue
+                rc, out, err = native.execute(exe, [repr(mnv), repr(stv), nbv, 1 if per else 0, repr(vv), '1.0'])
+                kstar = math.floor((vv - mnv) / stv + 0.5)
+                exp = (kstar % nbv) if per else (kstar if 0 <= kstar < nbv else None)
+                got = [int(l.split('=')[1]) for l in out.splitlines() if l.startswith('changed_bin=')]
+                ok = (got == ([] if exp is None else [exp])) and rc == 0
+                o['replay'] = {'reproduced': not ok, 'cmd': '%s %r %r %d %d %r 1.0' % (exe, mnv, stv, nbv, per, vv), 'expected_bin': exp, 'changed_bins': got, 'rc': rc,
+                               'against': 'real HistogramNew::Process; expected bin = floor((v-min)/step + 1/2), wrapped modulo nbins in periodic mode'}
+        except core.Undecided as e:
+            for o in bad:
+                o['replay'] = {'reproduced': False, 'error': str(e)}
     mf = [{'name': F, 'file': rel, 'ast_nodes': rvc.node_count(fn), 'route': 'RVC'}]
     for o in obs:
         o['functions'] = mf
